@@ -76,6 +76,11 @@ class SchedWorker(PersistentThreadWorker):
         self._sent = threading.Semaphore(0)
         super().__init__(*a, **kw)
 
+    def _get_restart_args(self):
+        a, k = super()._get_restart_args()
+        k.update(sched=self._sched, index=self._index)
+        return a, k
+
     def _send_result(self, result):
         super()._send_result(result)
         self._sent.release()
@@ -171,6 +176,22 @@ class Scheduler:
             cls = SchedWorkerEOF if i in cfg.get('bare_eof', ()) else SchedWorker
             w = self.pool.add_worker(cls, target=self.make_target(i), sched=self, index=i, set_names=False)
             self.workers.append(w)
+
+    def restart_all(self):
+        self.free_run = True            # workers still parked at their gate leave it on their own
+        for g in self.gates:
+            for _ in range(5):
+                g.put('answer')
+        try:
+            self.pool.restart_workers(timeout=5)
+        finally:
+            self.free_run = False
+        for i in range(len(self.workers)):
+            self.gates[i] = queue.Queue()
+            self.held[i] = []
+            self.alive[i] = True
+        self.deaths = 0
+        self.log.append(('restart_workers',))
 
     def source(self, base=0):
         n = self.cfg['inputs']
@@ -357,7 +378,8 @@ class Scheduler:
             self.build()
             kwargs = dict(worker_extra_pending_inputs=cfg.get('extra', 0), return_results=cfg.get('return_results', True))
             refuse = set(tuple(p) for p in cfg.get('refuse', ()))
-            if refuse:
+            raise_at = {(p[0], p[1]): p[2] for p in cfg.get('raise_at', ())}     # (worker, input) -> how many times the enqueue fails
+            if refuse or raise_at:
                 def enqueue_fn(worker, x):
                     # the user callback is a contact point of the Pool thread too: count it, so that a
                     # Pool spinning through refusals without ever waiting is seen as what it is
@@ -367,6 +389,11 @@ class Scheduler:
                     if (worker._index, x) in refuse:
                         self.log.append(('refused', worker._index, x))
                         return False
+                    if raise_at.get((worker._index, x), 0) > 0:
+                        # a transient failure of the hand-over itself; the worker stays alive
+                        raise_at[(worker._index, x)] -= 1
+                        self.log.append(('enqueue-raised', worker._index, x, bool(self.alive[worker._index])))
+                        raise ConnectionError('transient enqueue failure (worker %d, input %r)' % (worker._index, x))
                     worker.enqueue(x)
                     return True
                 kwargs['enqueue_fn'] = enqueue_fn
@@ -375,8 +402,12 @@ class Scheduler:
             for ri in range(cfg.get('runs', 1)):
                 base = ri * 100
                 if ri > 0:
-                    # a further run on the same pool: fresh workers are added (as a user would after a failed run)
-                    self.add_workers(cfg['workers'])
+                    if cfg.get('between') == 'restart':
+                        # a further run on the same pool after restart_workers(): same worker objects, new identities
+                        self.restart_all()
+                    else:
+                        # a further run on the same pool: fresh workers are added (as a user would after a failed run)
+                        self.add_workers(cfg['workers'])
                     self.drawn, self.lost, self.answered = [], [], []
                     self.sync_points = 0
                     self.log.append(('next-run', ri))
@@ -478,6 +509,8 @@ def judge_run(cfg, out, base=0):
                 lost = set(x for _, x in out['lost'])
                 # 'or was being handed': the pool's enqueue hit a worker that was already dead
                 lost |= set(e[2] for e in out['log'] if e[0] == 'pool-enqueue' and e[3] is False)
+                # ... also when the hand-over itself failed on a worker that (ground truth) had died by then
+                lost |= set(e[2] for e in out['log'] if e[0] == 'enqueue-raised' and e[3] is False)
                 missing = set(out['drawn']) - set(got)
                 unjust = sorted(missing - lost)
                 if unjust and not refuse:
